@@ -26,8 +26,15 @@ def u10_network_duplicates_are_filtered(ctx):
     (ring cleared only over the block difference, clamp = ring length) are re-evaluated here."""
     from ..engine import Ctx
     from . import c11
-    sub = Ctx(ctx.prog, "C11", ctx.tier)
-    c11.run(sub)
+    busy = ctx.prog.__dict__.setdefault("_importing", set())
+    if "C11" in busy:          # C11 is importing C02's reply-address rules right now (F6): do not import back
+        return
+    busy.add("C02")
+    try:
+        sub = Ctx(ctx.prog, "C11", ctx.tier)
+        c11.run(sub)
+    finally:
+        busy.discard("C02")
     n = 0
     for o in sub.obs:
         if o.rule == "F4" and ("ring-cleared" in o.key or "forward-jump-clamp" in o.key):
